@@ -104,9 +104,18 @@ func (s *sysRun) run() {
 		s.reqs[i].before = true
 		s.submit(&s.reqs[i])
 	}
-	_, err := s.cli.Connect(context.Background(), "cid", WithCleanSession(false))
+	// the context given to Connect: background, or (param cancelctx: 1 always, 2 as a choice) one that the
+	// application cancels as soon as Connect has returned -- the usual `defer cancel()` pattern
+	cctx, ccancel := context.WithCancel(context.Background())
+	_, err := s.cli.Connect(cctx, "cid", WithCleanSession(false))
 	s.connErr = err
-	verifEvent("app:connected")
+	if cc := verifParam("cancelctx", 0); cc == 1 || (cc == 2 && verifChoice("cancelctx", 2) == 1) {
+		ccancel()
+		verifEvent("app:connected,ctx-cancelled")
+	} else {
+		verifEvent("app:connected")
+	}
+	_ = ccancel
 	for i := nb; i < len(s.reqs); i++ {
 		if verifChoice("pause", 2) == 1 {
 			verifPause()
@@ -378,6 +387,12 @@ func VerifH_SYS_C02() {
 	}
 	sysScenario(kinds, "C02")
 }
-func VerifH_SYS_C03() { sysScenario([]int{rkPub0, rkPub1, rkPub2, rkSub}, "C03") }
+func VerifH_SYS_C03() {
+	kinds := []int{rkPub0, rkPub1, rkPub2, rkSub}
+	if verifParam("c03kinds", 0) == 1 {
+		kinds = []int{rkPub1, rkSub} // the narrow variant used with session loss (re-subscription vs pending requests)
+	}
+	sysScenario(kinds, "C03")
+}
 func VerifH_SYS_C12() { sysScenario([]int{rkPub0, rkPub1, rkPub2}, "C12") }
 func VerifH_SYS_C15() { sysScenario([]int{rkPub1, rkPub2}, "C15") }
